@@ -156,6 +156,19 @@ impl Scenario for C08 {
                     p.faults.push(format!("content-{a}"));
                 }
             }
+            15 | 16 | 17 => {
+                // orphan records: lines of some section's kind in front of the first section header (after the version line
+                // if there is one) — they belong to no section
+                let text = crate::corpus::model_text(&p.data);
+                let mut lines: Vec<String> = text.split('\n').map(str::to_string).collect();
+                let first_header = lines.iter().position(|l| l.trim_start().starts_with('[')).unwrap_or(lines.len());
+                for _ in 0..1 + rng.below(3) {
+                    let rec = *rng.pick(&["2,100,200", "0,0,\"orphan-bg.png\",0,0", "Video,0,\"orphan.mp4\"", "Break,300,900", "0,500,4,1,0,100,1,0", "256,192,1000,1,0", "Title:orphan", "Mode: 3", "Combo1 : 1,2,3", "CircleSize:7", "Sprite,Background,Centre,\"sb.png\",320,240"]);
+                    lines.insert(first_header, rec.to_string());
+                }
+                p.data = encode_text(&lines.join("\n"), enc);
+                p.faults.push("content-orphan-records-before-first-header".into());
+            }
             14 if rng.chance(1, 2) => {
                 // the content spells the path of a file that exists (a bundled map, this process's executable, the root
                 // directory): it is still just text
@@ -208,6 +221,13 @@ impl Scenario for C08 {
             p.sched.clear();
             p.eintr.clear();
             p.p.remove("decoy");
+        }
+        if rng.chance(1, 10) {
+            // the real file system more often, under all sorts of file names
+            p.set("t", crate::transport::T_FROM_PATH);
+            p.set("fname", rng.below(8) as i64);
+            p.sched.clear();
+            p.eintr.clear();
         }
         if rng.chance(1, 1500) && p.data.len() > 2 {
             // real-OS, real-time probe (rare: each costs 120 ms): a pipe whose writer pauses in the middle
